@@ -499,8 +499,11 @@ pub fn stale_exit_race(run: &mut Run, cases: usize) -> anyhow::Result<()> {
             let gate = gate.clone();
             async move {
                 let fabric = Fabric::new(seed);
-                let s = start_node(&fabric, seed, 1, config_idle(30_000))?;
-                let p = start_node(&fabric, seed, 2, config_idle(30_000))?;
+                let n1 = start_node(&fabric, seed, 1, config_idle(30_000))?;
+                let n2 = start_node(&fabric, seed, 2, config_idle(30_000))?;
+                // S (whose stale handler is parked) is the node with the smaller id, so that the re-dial
+                // replaces the stale connection at S whichever side dialled first (tie-break)
+                let (s, p) = if n1.id.0 < n2.id.0 { (n1, n2) } else { (n2, n1) };
                 let mut slog = NodeLog::new(&s.net);
                 // who dials first decides the origin of the stale connection at S
                 if case % 2 == 0 {
@@ -542,7 +545,10 @@ pub fn stale_exit_race(run: &mut Run, cases: usize) -> anyhow::Result<()> {
                 // meanwhile a new connection between the two is established and registered at S
                 let redial = tokio::time::timeout(Duration::from_secs(5), p.net.connect_with_peer_id(s.addr, s.id)).await;
                 tokio::time::sleep(Duration::from_millis(200)).await;
-                let listed_before_release = s.net.peers().contains(&p.id);
+                slog.pump();
+                // the scenario is about a REPLACED entry: S must have announced the replacement
+                let replaced = slog.events.len() >= 3 && matches!(slog.events.last(), Some(PeerEvent::NewPeer(x)) if *x == p.id);
+                let listed_before_release = s.net.peers().contains(&p.id) && replaced;
                 {
                     let mut g = gate.st.lock().unwrap();
                     g.2 = true;
